@@ -77,3 +77,18 @@ def site_construct(site, ctx=None):
         p = site.path or "<indirect>"
         return p
     return "drop(%s)" % site.body.prog.ty_str(site.term["ty"])
+
+
+def share_rule(ctx, tier, module, src_rid, new_rid, title, scenario):
+    """Rule `src_rid` of another property's module, re-labelled: one structural clause can be a necessary condition of
+    two properties (each check reports it under its own key and its own consequence)."""
+    shared = dict((x.rid, x) for x in module.rules(ctx, tier))
+    x = shared.get(src_rid)
+    if x is None:
+        return None
+    x.rid = new_rid
+    x.title = title
+    x.scenario = scenario
+    for o in x.obs:
+        o.scenario = scenario
+    return x
